@@ -13,7 +13,7 @@ from sv import core
 PROPERTY = "C08"
 GEN = ["Discretise", "Contingency"]
 PROPS = ["ScoresVerif/Props/C08.lean"]
-DRIVER_DEPS = ["ScoresVerif.Driver.C08"]
+DRIVER_DEPS = ["ScoresVerif.Driver.C08Spec", "ScoresVerif.Driver.C08"]
 LEVEL = "proof"
 TRUSTED = ["SV.PyOp / SV.PyMode (Model/Discretise.lean) as the meaning of Python's operator functions, `in`, `is` on the mode argument",
            "Model/C08.lean: list-level model of .sum(dim)/.mean(dim) (skipna) and of the threshold loop of binary_discretise",
@@ -21,6 +21,25 @@ TRUSTED = ["SV.PyOp / SV.PyMode (Model/Discretise.lean) as the meaning of Python
 ASSUMPTIONS = ["data, thresholds and tolerances are dyadic (k/4) so every comparison and threshold±tolerance is exact in float64",
                "infinite data / thresholds are outside the property theorems (model and implementation are still compared on them)",
                "Dataset inputs and dask arrays are not generated"]
+MANIFEST = dict(
+    level="proof",
+    text="Kernel-checked Lean theorems about definitions regenerated from the source on every run (mode tables and the if/elif "
+         "relation chain of comparative_discretise incl. abs_tolerance sanitising; event expressions and threshold/operator "
+         "fallbacks of ThresholdEventOperator; the four boolean maps of BinaryContingencyManager): relation table for all 6 "
+         "modes x every tolerance >= 0 on finite data, string spelling = operator spelling for all values, NaN -> NaN, "
+         "complementary relations sum to 1, guards; events = op(x, thr) for EVERY supplied threshold (0, negative) and each "
+         "operator; each count = direct count, tp+fp+fn+tn = total = #pairs valid in both, maps disjoint and covering, counts "
+         "additive under concatenation (kept counts sum to reduced counts) for lists of any length; proportion = share. "
+         "Tied to the code by the translator, a differential correspondence and an independent oracle (Lean Spec + direct "
+         "Python counting + relations between implementation runs).",
+    note="Trusted: Lean kernel; propext/Classical.choice/Quot.sound; py2lean + tools/gen/Discretise.py; SV.Fl (IEEE minus rounding, "
+         "overflow, signed zero); SV.PyOp/PyMode as the meaning of operator functions and of `in`/`is` on the mode; the "
+         "list-level hand model (Model/C08.lean) of .sum/.mean(skipna), of the threshold loop, monotonicity guard and total = "
+         "tp+tn+fp+fn, which is compared with the implementation, not translated. Not modelled: Dataset/dask inputs, attrs, "
+         "autosqueeze bookkeeping (shape only compared), gather_dimensions (C01); infinite data/thresholds are compared but "
+         "outside the theorems (|inf-inf| is NaN, so '==' of equal infinities is 0).",
+    technique="Lean 4 theorems over translator-regenerated definitions + differential correspondence + property oracle",
+    design="6/C08")
 RULE = ("cases drawn from a dyadic pool with 50 % of data values placed on / within / just outside tolerance of a threshold, "
         "NaN in every slot, all 12 mode spellings, thresholds 0 and negative for the event operator; distinct = distinct "
         "canonical input; non-trivial = at least one non-NaN output and not in the malformed stream")
@@ -553,7 +572,7 @@ def oracle(ctx, boost):
                 cases.append({"fn": "binary", "data": grid, "comp": [-0.5, 0.0, 0.0, 0.25], "mode": mode, "tol": tol,
                               "scalar": False, "malformed": None})
     ctx.exhaustive.append("oracle: 12 spellings x 5 tolerances x 17 data values k/4 in [-2,2] + NaN x 4 thresholds, both functions")
-    spec = core.run_driver("C08", [spec_op(c) for c in cases])
+    spec = core.run_driver("C08S", [spec_op(c) for c in cases])
     for c, s in zip(cases, spec):
         ctx.case("discretise-vs-definition", {k: c[k] for k in ("fn", "data", "comp", "mode", "tol", "scalar")})
         oracle_disc_case(ctx, "discretise-vs-definition", c, s)
@@ -590,7 +609,7 @@ def oracle(ctx, boost):
             c.update({"thr": thr, "op": op})
             c["f"][0][0] = float(thr)
             tcs.append(c)
-    spec = core.run_driver("C08", [spec_driver_op(c) for c in tcs])
+    spec = core.run_driver("C08S", [spec_driver_op(c) for c in tcs])
     for c, s in zip(tcs, spec):
         ctx.case("event-operator-vs-direct-count", {k: c[k] for k in ("f", "o", "obs_1d", "thr", "op", "dthr", "dop")})
         ctx.tag("oracle-thr:" + table_tags(c)["thr"])
@@ -640,11 +659,11 @@ def replay(ctx, payload):
     if "fn" in case:
         c = {k: unfl(v) for k, v in case.items()}
         c["malformed"] = None
-        s = core.run_driver("C08", [spec_op(c)])[0]
+        s = core.run_driver("C08S", [spec_op(c)])[0]
         return not oracle_disc_case(ctx2, "replay", c, s) or bool(ctx2.failures)
     if "f" in case and "dthr" in case:
         c = {k: unfl(v) for k, v in case.items()}
-        s = core.run_driver("C08", [spec_driver_op(c)])[0]
+        s = core.run_driver("C08S", [spec_driver_op(c)])[0]
         res = run_table_case(c)
         check_table_against(ctx2, "replay", "property", c, res, s, spec=True)
         check_table_relations(ctx2, "replay", c, res)
